@@ -403,18 +403,21 @@ def date(year, month_, day):
     if year < 1900:
         year += 1900
 
-    # taking into account negative month and day values
-    year, month_, day = normalize_year(year, month_, day)
+    # taking into account negative month values
+    year, month_, _ = normalize_year(year, month_, 1)
 
     try:
-        result = (dt.datetime(year, month_, day) - DATE_ZERO).days
+        result = (dt.datetime(year, month_, 1) - DATE_ZERO).days
         if result <= 60:
             result -= 1
     except ValueError:
-        assert (year, month_, day) == LEAP_1900_TUPLE
-        result = 60.0
+        return NUM_ERROR
 
-    if result < 0:
+    # days count from the first of the month along the serial numbers, which
+    # also takes care of day <= 0, day > month length and of 1900/02/29
+    result += int(day) - 1
+
+    if not (0 <= result < DATE_MAX_INT):
         return NUM_ERROR
     return result
 
